@@ -269,6 +269,13 @@ class WorkflowRecovery:
                 stages_to_requeue.append(stage)
             # Stage is NOT_STARTED - check if it should be re-queued
             elif stage.status == WorkflowStatus.NOT_STARTED:
+                if stage.parent_stage_id is not None:
+                    # A synthetic child is started by its parent: StartStage(parent)'s
+                    # plan commit pushes the before-stages, CompleteStage(parent) the
+                    # after-stages, each atomically with the state that makes them due.
+                    # It has no requisites, so _can_start() would start it at once,
+                    # before (or without) its parent.
+                    continue
                 if self._has_started(stage):
                     # Stage started but crashed before status was updated to RUNNING
                     # Need to requeue for recovery
@@ -322,6 +329,17 @@ class WorkflowRecovery:
             if stage.status == WorkflowStatus.RUNNING:
                 running_tasks = [t for t in stage.tasks if t.status == WorkflowStatus.RUNNING]
                 not_started_tasks = [t for t in stage.tasks if t.status == WorkflowStatus.NOT_STARTED]
+                from stabilize.models.stage import SyntheticStageOwner
+                from stabilize.models.status import CONTINUABLE_STATUSES
+
+                children = [s for s in full_workflow.stages if s.parent_stage_id == stage.id]
+                before_children = [s for s in children if s.synthetic_stage_owner == SyntheticStageOwner.STAGE_BEFORE]
+                unfinished_before = [s for s in before_children if s.status not in CONTINUABLE_STATUSES]
+                unstarted_after = [
+                    s
+                    for s in children
+                    if s.synthetic_stage_owner == SyntheticStageOwner.STAGE_AFTER and s.status == WorkflowStatus.NOT_STARTED
+                ]
 
                 if running_tasks:
                     for task in running_tasks:
@@ -338,6 +356,33 @@ class WorkflowRecovery:
                                 stage_id=stage.id,
                                 task_id=task.id,
                                 task_type=stage.type,
+                            )
+                        )
+                elif unfinished_before:
+                    # The stage's own tasks start when its before-stages are done
+                    # (ContinueParentStage). A before-stage that never started is
+                    # (re)started here: the plan commit that pushes its StartStage may
+                    # not have happened (worker died between claim and plan), and the
+                    # redelivered StartStage(parent) is ignored because the stage "has
+                    # synthetic stages". Started ones are recovered as stages of their own.
+                    for child in unfinished_before:
+                        if child.status == WorkflowStatus.NOT_STARTED:
+                            recovery_messages.append(
+                                StartStage(
+                                    execution_type=full_workflow.type.value,
+                                    execution_id=full_workflow.id,
+                                    stage_id=child.id,
+                                )
+                            )
+                elif not stage.tasks and not before_children and unstarted_after:
+                    # task-less stage claimed but never planned: its plan would have
+                    # pushed the after-stages
+                    for child in unstarted_after:
+                        recovery_messages.append(
+                            StartStage(
+                                execution_type=full_workflow.type.value,
+                                execution_id=full_workflow.id,
+                                stage_id=child.id,
                             )
                         )
                 elif not_started_tasks and stage.start_time is not None:
